@@ -54,6 +54,8 @@ def cases(tier, rng):
         out.append(("random-commented", decorate(rng, src)))
     from .. import gen2
     from . import C03
+    out += gen2.big_code_programs()[:4]
+    out += [("iife", p) for p in gen2.iife_programs()]
     for _ in range(150 if tier == "quick" else 4000):
         out.append(("fn-values", gen2.fnvalue_program(rng.fork())))
         out.append(("nested-fn", gen2.nested_fn_program(rng.fork())))
